@@ -583,6 +583,9 @@ def workload(tier, rng, shard, nshards, work):
             ents = []
             i = 0
             labs = ["w%d" % j for j in range(12)]
+            if rng.random() < 0.25:
+                labs[rng.randrange(4)] = rng.choice(["100%", "5%%", "a%sb", "x y", "%d"])  # labels end up in file names: percent signs, blanks
+                REC.cls("C17:split:label-with-percent-or-blank")
             while i + 1 < len(pts):
                 lab = labs[len(ents)] if rng.random() < 0.8 else rng.choice(["", "sil", "w0"])
                 ents.append((pts[i], pts[i + 1], lab))
@@ -604,7 +607,10 @@ def workload(tier, rng, shard, nshards, work):
             sec = [(a + t0, b + t0, l) for a, b, l in gen.rand_interval_entries(rng, 6, half, labels=["p", "q"]) if b + t0 <= dur]
             tg.addTier(make_tier("I", "phones", sec, t0, dur), reportingMode="silence")
             if rng.random() < 0.6:
-                tg.addTier(make_tier("P", "marks", [(t, "m") for t in sorted({t0 + rng.uniform(0, half) for _ in range(rng.randrange(0, 4))})], t0, dur), reportingMode="silence")
+                mk = {t0 + rng.uniform(0, half) for _ in range(rng.randrange(0, 4))}
+                if rng.random() < 0.5:
+                    mk |= {rng.choice(ents)[rng.randrange(2)] for _ in range(2)}  # marks exactly on the start / end of an entry
+                tg.addTier(make_tier("P", "marks", [(t, "m") for t in sorted(mk)], t0, dur), reportingMode="silence")
             tgfn = os.path.join(str(work), "rec.TextGrid")
             with core.paused():
                 tg.save(tgfn, rng.choice(("short_textgrid", "long_textgrid")), True, reportingMode="silence")
